@@ -101,7 +101,9 @@ def encoding_provn_value(value):
     elif isinstance(value, datetime.datetime):
         return '"{0}" %% xsd:dateTime'.format(value.isoformat())
     elif isinstance(value, float):
-        return '"%g" %%%% xsd:float' % value
+        # a Python float is an xsd:double everywhere else in this package;
+        # repr() keeps the value exact (%g would keep six digits only)
+        return '"%s" %%%% xsd:double' % repr(value)
     elif isinstance(value, bool):
         return '"%i" %%%% xsd:boolean' % value
     else:
